@@ -779,14 +779,34 @@ def detect_cfg(ctx):
         src = open(os.path.join(REPO, 'src/geom/CompoundCurve.cpp')).read()
         m = re.search(r'CompoundCurve::validateConstruction\(\) const\s*\{(.*?)\n\}', src, re.S)
         cfg['guard'] = bool(m and re.search(r'isEmpty\(\)', m.group(1)))
-        for rd, f in (('wkb', 'include/geos/io/WKBReader.h'), ('wkt', 'include/geos/io/WKTReader.h'), ('geojson', 'include/geos/io/GeoJSONReader.h')):
+        for rd, f, src, use in (('wkb', 'include/geos/io/WKBReader.h', 'src/io/WKBReader.cpp', r'nestingDepth\s*>\s*MAX_NESTING_DEPTH'),
+                                 ('wkt', 'include/geos/io/WKTReader.h', 'src/io/WKTReader.cpp', r'nestingDepth\s*>\s*MAX_NESTING_DEPTH'),
+                                 ('geojson', 'include/geos/io/GeoJSONReader.h', 'src/io/GeoJSONReader.cpp', r'depth\s*>\s*MAX_NESTING_DEPTH')):
             t = open(os.path.join(REPO, f)).read()
             m = re.search(r'MAX_NESTING_DEPTH\s*=\s*(\d+)', t)
-            if m:
+            # the constant counts only if the reader compares its depth counter with it and throws
+            if m and re.search(use + r'\)\s*\{\s*throw', open(os.path.join(REPO, src)).read()):
                 cfg['depth'][rd] = int(m.group(1))
     except OSError as e:
         ctx.broken.append(dict(kind='build', name='detect_cfg', detail=str(e)))
     return cfg
+
+
+def write_limits(cfg):
+    """Gen/C11_limits.v: the nesting limits and the compound-curve guard as they are in the source now (tie G by script)"""
+    from vlib.core import COQ
+    def opt(r):
+        return 'Some %d' % cfg['depth'][r] if r in cfg['depth'] else 'None'
+    txt = ('(* GENERATED by props/C11.py from include/geos/io/{WKBReader,WKTReader,GeoJSONReader}.h, src/io/*Reader.cpp and\n'
+           '   src/geom/CompoundCurve.cpp — do not edit, not committed. *)\n'
+           'From Coq Require Import ZArith.\nLocal Open Scope Z_scope.\n'
+           'Definition wkb_max_nesting : option Z := %s.\nDefinition wkt_max_nesting : option Z := %s.\n'
+           'Definition geojson_max_nesting : option Z := %s.\nDefinition compound_guard : bool := %s.\n'
+           % (opt('wkb'), opt('wkt'), opt('geojson'), 'true' if cfg['guard'] else 'false'))
+    path = os.path.join(COQ, 'theories/Gen/C11_limits.v')
+    os.makedirs(os.path.dirname(path), exist_ok=True)
+    if not os.path.exists(path) or open(path).read() != txt:
+        open(path, 'w').write(txt)
 
 
 def known_entry(ctx, fid):
@@ -809,6 +829,7 @@ def run(ctx):
     cfg = detect_cfg(ctx)
     D = {r: cfg['depth'].get(r, D_DEFAULT[r]) for r in D_DEFAULT}
     ctx.notes['config_from_source'] = dict(compound_curve_guard=cfg['guard'], nesting_limit=cfg['depth'] or 'none (unchanged tree)', D_known_finding=D)
+    write_limits(cfg)
     ok_asan = ctx.build_repo('asan')
     ctx.translate(['C11_minMemSize'])
     ok_coq, ax = ctx.coq_build('Properties_C11')
@@ -836,7 +857,8 @@ def run(ctx):
     ctx.log('%d distinct cases generated' % len(cases))
     lines = [c.line() for c in cases]
     # ---- the model first: it decides which inputs are predicted to hit F14 / F2 on the unchanged tree
-    margs = [str(cfg['depth']['wkb']) if 'wkb' in cfg['depth'] else 'none', '1' if cfg['guard'] else '0']
+    margs = [str(cfg['depth']['wkb']) if 'wkb' in cfg['depth'] else 'none', '1' if cfg['guard'] else '0',
+             str(cfg['depth']['wkt']) if 'wkt' in cfg['depth'] else 'none']
     mlines = [l for c, l in zip(cases, lines) if c.mode != 'J']
     t0 = time.time()
     mout = run_cases([drv] + margs, mlines, tmo=300, workers=6, unlimited_stack=True) if drv else [None] * len(mlines)
